@@ -20,7 +20,9 @@ def generate():
     meta.append(transplant_file(
         "ant-networking/src/record_store.rs", f"{DST}/record_store.rs", ROOTS,
         subs=[("#![allow(clippy::mutable_key_type)]", "", 1)],
-        append='#[path = "../h_store.rs"]\npub mod harness;\n',
+        # is_file() is answered by the in-memory file system, on a real &Path (pattern-level, any number of sites)
+        regex_subs=[(r"\.is_file\(\)", ".model_is_file()", 0)],
+        append='#[allow(unused_imports)]\nuse crate::shim::walkdir::ModelIsFile as _;\n#[path = "../h_store.rs"]\npub mod harness;\n',
         require=["fn put_verified", "fn mark_as_stored", "fn prune_records_if_needed",
                  "fn cleanup_irrelevant_records", "fn update_records_from_an_existing_store"]))
     meta.append(transplant_file(
